@@ -22,7 +22,7 @@ PROVE_TIMEOUT = 900
 RULE = ('N threads (2,3,4,8,16 quick / 2..16 thorough), R rounds: thread t of round r builds its own Handler '
         '(vector<int>, two vector<string> destinations with list separators chosen from 16 characters by (t+r), range / '
         'lower / upper / values / minLength checks, cardinality, upper-case format, a requires constraint, a mandatory '
-        'argument) and evaluates its own line (values contain the separators of other threads, so a foreign separator '
+        'argument; flag hfReadProgArg with a program name and an argument file of its own, whose value is known without a reference run) and evaluates its own line (values contain the separators of other threads, so a foreign separator '
         'changes the tokens; some lines are rejected by a check or an unknown argument); the outcome (destination '
         'values or exception text) is compared with the same job run alone; the whole run under ThreadSanitizer.')
 TRUSTED_BASE = [
@@ -52,7 +52,7 @@ def translate(repo, coq):
     return tr_statics.translate(repo, coq)
 
 
-TSAN_ENV = {'TSAN_OPTIONS': 'halt_on_error=0:exitcode=0:report_thread_leaks=0'}
+TSAN_ENV = {'TSAN_OPTIONS': 'halt_on_error=0:exitcode=0:report_thread_leaks=0', 'VERIF_WORK': '/verif/.work'}
 
 
 def _replay_arg():
